@@ -624,8 +624,8 @@ def finish(total, tier, seed):
 MANIFEST = dict(
     text="Bounded exhaustive comparison of Quantity + - * / neg ** with arithmetic on base-dimension values: all "
          "ordered operand pairs over 23 core units (prefixed, compound, fractional-dimension, dimensionless, %*m-like) plus a "
-         "seed-selected window of 11-12 further linear table units (thorough: every linear table unit, plain and "
-         "prefixed: 194 units, all 37 636 ordered pairs, ~1.2 million cases), magnitudes {0,2,-3,0.5,1e10} and arrays, a plain int/float on either side of every operator, "
+         "seed-selected window of 12-13 further linear table units (thorough: every linear table unit, plain and "
+         "prefixed: 197 units, all 38 809 ordered pairs, ~1.47 million cases), magnitudes {0,2,-3,0.5,1e10} and arrays, a plain int/float on either side of every operator, "
          "18 exponents n/d (d<=6) in int/pair/float/Fraction form. Checked per case: base value (rel 1e-12), "
          "dimension vector, units bookkeeping (left units for sums, exponent sums, exponent*p, folding when all "
          "dimensions vanish), refusal of sums of different dimension (incl. number +- angle). Chains: operands that "
